@@ -76,7 +76,7 @@ func main() {
 	maxPaths := flag.Int("maxpaths", 20000, "path budget per harness")
 	qtimeout := flag.Duration("qtimeout", 60*time.Second, "per-query solver timeout")
 	budget := flag.Duration("budget", 10*time.Minute, "wall budget per harness")
-	solver := flag.String("solver", "z3", "z3 | z3-new | cvc5")
+	solver := flag.String("solver", "z3-new", "z3 | z3-new | cvc5")
 	out := flag.String("out", "", "result JSON path")
 	initlog := flag.Bool("initlog", false, "log tolerated init failures")
 	concrete := flag.Bool("concrete", false, "run harness concretely (no explorer); verif inputs come from VERIF_MODEL")
@@ -84,6 +84,7 @@ func main() {
 	tags := flag.String("tags", "verif", "build tags")
 	tier := flag.String("tier", "quick", "quick | thorough")
 	cpuprof := flag.String("cpuprofile", "", "write cpu profile")
+	flag.StringVar(&smtlogDir, "smtlog", "", "directory for solver transcripts")
 	flag.Parse()
 
 	_ = trace
@@ -227,6 +228,8 @@ func main() {
 	os.Exit(exit)
 }
 
+var smtlogDir string
+
 var modelRedirects = map[string]string{
 	"crypto/sha256.New":                 "NewSha256",
 	"crypto/sha256.Sum256":              "Sum256",
@@ -261,6 +264,11 @@ func runHarness(m *interp.Machine, pkg *ssa.Package, fn *ssa.Function, res *Harn
 			return
 		}
 		exs[w] = ex
+		if smtlogDir != "" {
+			os.MkdirAll(smtlogDir, 0755)
+			f, _ := os.Create(fmt.Sprintf("%s/%s_w%d.smt2", smtlogDir, fn.Name(), w))
+			ex.Solver.Log = f
+		}
 		wg.Add(1)
 		go func(ex *interp.Explorer) {
 			defer wg.Done()
